@@ -15,6 +15,12 @@ import (
 
 func genC03Plan(r *sim.Rng, tier string) AdmPlan {
 	var pl AdmPlan
+	if r.Bool(0.1) {
+		rp := genC03RtspPull(r.Fork("rtsppull"), tier)
+		pl.Relay = &rp
+		pl.Sched = rp.Sched
+		return pl
+	}
 	pl.Conf = LalConf{ApiEnable: true, FlvEnable: true, RtspEnable: true, RtmpGop: r.Intn(2), FlvGop: r.Intn(2)}
 	pl.Sched = GenSched(r.Fork("sched"), tier == "thorough")
 	pl.Sched.Preempt = r.Intn(7)
@@ -598,11 +604,42 @@ func init() {
 		Run: func(k *sim.Kernel, plan json.RawMessage) {
 			var pl AdmPlan
 			fromJSON(plan, &pl)
+			if pl.Relay != nil {
+				checkC03RtspPull(k, ExecRelay(k, *pl.Relay))
+				return
+			}
 			ar := ExecAdm(k, pl)
 			CheckC03(k, ar)
 		},
-		Shrink: admShrink,
-		Shape:  admShape,
-		Brief:  admBrief,
+		Shrink: func(plan json.RawMessage) []json.RawMessage {
+			var pl AdmPlan
+			fromJSON(plan, &pl)
+			if pl.Relay == nil {
+				return admShrink(plan)
+			}
+			var out []json.RawMessage
+			for _, c := range relayShrink(mustJSON(*pl.Relay)) {
+				var rp RelayPlan
+				fromJSON(c, &rp)
+				out = append(out, mustJSON(AdmPlan{Relay: &rp, Sched: rp.Sched}))
+			}
+			return out
+		},
+		Shape: func(plan json.RawMessage) string {
+			var pl AdmPlan
+			fromJSON(plan, &pl)
+			if pl.Relay != nil {
+				return "rtsppull/" + relayShape(mustJSON(*pl.Relay))
+			}
+			return admShape(plan)
+		},
+		Brief: func(plan json.RawMessage) interface{} {
+			var pl AdmPlan
+			fromJSON(plan, &pl)
+			if pl.Relay != nil {
+				return map[string]interface{}{"scenario": "rtsp relay pull overtaken by a publisher", "relay": relayBrief(mustJSON(*pl.Relay))}
+			}
+			return admBrief(plan)
+		},
 	})
 }
